@@ -130,6 +130,25 @@ def run(pid, tier, seed):
             violations.append(dict(replay=path, what="driver failure on case %d: %s" % (r["seed"], r["err"]), fingerprint="driver:" + str(r["err"])[:40]))
             continue
         execs.append(r["lines"]); meta.append(r)
+    # thorough tier: the first histories once more on the AddressSanitizer/UBSan build of the driver - a memory error in a
+    # code path the history reaches is a violation whatever the trace looks like (how S34 shows without luck)
+    nasan = 0
+    if tier == "thorough" and not os.environ.get("VERIF_SKIP_ASAN"):
+        ab = vlib.build("asan") + "/harness/bs_driver"
+        awd = vlib.scratch("%s_%s_asan" % (pid, tier)); logp = os.path.join(awd, "asan")
+        os.environ["ASAN_OPTIONS"] = "detect_leaks=0:abort_on_error=0:log_path=" + logp
+        os.environ["UBSAN_OPTIONS"] = "print_stacktrace=1:log_path=" + logp
+        t0 = time.time()
+        ares = vlib.parallel(run_one, [(ab, pid, sd, awd) for sd in seeds[:400]])
+        os.environ.pop("ASAN_OPTIONS", None); os.environ.pop("UBSAN_OPTIONS", None)
+        nasan = len(ares)
+        reports = sorted(f for f in os.listdir(awd) if f.startswith("asan."))
+        for f in reports[:3]:
+            txt = open(os.path.join(awd, f), errors="replace").read()
+            head = next((l for l in txt.split("\n") if "ERROR" in l or "runtime error" in l), txt[:200])
+            path = vlib.save_replay(pid, "asan-" + f, dict(property=pid, kind="asan", report=txt[:20000]))
+            violations.append(dict(replay=path, what="sanitizer report while executing a generated history: %s" % head[:300], fingerprint="asan:" + re.sub(r"0x[0-9a-f]+|==\d+==", "", head)[:80]))
+        log("[%s] %d histories repeated on the ASan+UBSan build in %.0fs: %d sanitizer reports" % (pid, nasan, time.time() - t0, len(reports)))
     # validate in parallel batches
     batches = [(execs[i:i + BATCH], meta[i:i + BATCH], i // BATCH) for i in range(0, len(execs), BATCH)]
     def val(bt):
@@ -158,6 +177,7 @@ def run(pid, tier, seed):
                mc_per_config={m["cfg"]: dict(distinct=m["parse"]["distinct"], generated=m["parse"]["states"], depth=m["parse"]["depth"]) for m in mc},
                traces_validated_against_impl=accepted, evaluations=events, histories=len(execs),
                builds=sum(m["nbuilds"] for m in meta), commands_executed=sum(m["nran"] for m in meta), distinct_nontrivial=nontriv,
+               sanitized_histories=nasan,
                rule="non-trivial = histories with at least three builds in which at least one command executed; every line of an accepted history (build key, every needs-to-run callback with its reason, every command start/finish with status, build result, file-system changes, every database row with epochs/value kind/dependencies/signature) matched the outcome BuildSystem.tla computes",
                mc_configs=[m["cfg"] for m in mc], actions=vlib.coverage_actions(mc[0]["out"]) if mc else {},
                samples=[meta[0]["lines"][:12]] if meta else [], **fncov)
